@@ -86,7 +86,7 @@ theorem encStr_head (b : Bytes) : ∃ x xs, encStr b = x :: xs ∧ x ≠ 0xFB :=
       · exact ⟨0xFD, leN 3 b.length ++ b, by simp, by decide⟩
       · exact ⟨0xFE, leN 8 b.length ++ b, by simp, by decide⟩
 
-theorem textRowDec_cells (cells : List (Option Bytes)) (h : ∀ c ∈ cells, ∀ b, c = some b → b.length < 2 ^ 64) :
+theorem textRowDec_cells (cells : List (Option Bytes)) (h : ∀ c ∈ cells, ∀ b, c = some b → b.length < 2 ^ 63) :
     textRowDec cells.length
       ((cells.map (fun c => match c with | none => [0xFB] | some b => encStr b)).flatten) = some cells := by
   induction cells with
@@ -141,7 +141,7 @@ theorem signed_mag (us : Int) (b : Nat) (hb : b = 1 ↔ us < 0) :
 
 /-- well-formedness of a cell for a binary encoder class: exactly the values the protocol can carry -/
 def WF : BinEnc → Val → Prop
-  | .str, v => ∃ b, strOf v = some b ∧ b.length < 2 ^ 64
+  | .str, v => ∃ b, strOf v = some b ∧ b.length < 2 ^ 63
   | .float, .flt p4 _ _ => p4.length = 4
   | .double, .flt _ p8 _ => p8.length = 8
   | .date, .date y m d => y < 65536 ∧ m < 256 ∧ d < 256
